@@ -1,0 +1,29 @@
+//go:build verif
+
+// Contracts for the DynamoDB metastore (AWS SDK v1), read by /verif/gocv (comment-only; no code).
+package persistence
+
+// item layout: { Id, Created, KeyRecord: { Revoked?, Created, Key (standard base64, padded), ParentKeyMeta? { KeyId, Created } } }
+// (dynamodbattribute honours json tags; reading goes straight into appencryption.EnvelopeKeyRecord, whose shape is
+// declared in package appencryption)
+//@ wire (DynamoDBEnvelope) [C18:dynamodb-key-record-shape] Revoked:bool:"Revoked,omitempty" Created:int64:"Created" EncryptedKey:string:"Key" ParentKeyMeta:*KeyMeta:"ParentKeyMeta,omitempty"
+
+//@ extern base64.(*Encoding).EncodeToString
+//@   names enc, src
+//@   pure
+//@ extern dynamodbattribute.MarshalMap
+//@   names in
+//@ extern aws.String
+//@   names v
+//@   ensures result != nil && fresh(result) && *result == v
+//@ iface awserr.Error.Code
+//@   pure
+//@ iface DynamoDBClientAPI.PutItemWithContext
+//@   names ctx, input, opts
+
+//@ func (*DynamoDBMetastore).Store
+//@   facet C18
+//@   opt no-frame
+//@   requires d != nil && d.svc != nil && envelope != nil
+//@   ensures [C18:key-stored-as-standard-padded-base64] ncalls(EncodeToString) == 1 && arg(EncodeToString, 1, enc) == base64.StdEncoding && arg(EncodeToString, 1, src) == envelope.EncryptedKey
+//@   ensures [C18:key-record-fields-copied] ncalls(MarshalMap) == 1 && (forall e *DynamoDBEnvelope :: e == *dyn(arg(MarshalMap, 1, in), **DynamoDBEnvelope) ==> e != nil && e.EncryptedKey == ret(EncodeToString, 1, 0) && e.Created == envelope.Created && e.Revoked == envelope.Revoked && e.ParentKeyMeta == envelope.ParentKeyMeta)
